@@ -56,6 +56,7 @@ def perturb(k):
   pyrandom.seed(k)
   real = perturb.real_time
   time.time = lambda k=k: real() + 7919.0 * k
+  perturb.current = k
 
 
 perturb.real_time = time.time
@@ -63,6 +64,7 @@ perturb.real_time = time.time
 
 def unperturb():
   time.time = perturb.real_time
+  perturb.current = 1
 
 
 def run_mode(mode, name, seed, space_seed, steps):
@@ -129,6 +131,27 @@ def run_mode(mode, name, seed, space_seed, steps):
              'infeasible': bool(t.infeasible),
              'value': None if t.final_measurement is None else [repr(m.value) for m in t.final_measurement.metrics.values()]}
             for t in st.algorithm.supporter.GetTrials()]]
+  elif mode == 'benchmark_restore':
+    # studies run one after the other from ONE experimenter object with a state-persisting policy (the designer's state is
+    # kept in the study's problem metadata): a study must not inherit anything from the study that ran before it
+    from vizier.benchmarks import experimenters
+    from vizier._src.benchmarks.experimenters.synthetic import bbob
+    from vizier._src.benchmarks.runners import benchmark_runner, benchmark_state
+    exp = experimenters.NumpyExperimenter(bbob.Sphere, bbob.DefaultBBOBProblemStatement(2 + space_seed % 3))
+
+    def study(seed_, steps_):
+      problem_ = exp.problem_statement()
+      sup_ = local_policy_supporters.InRamPolicySupporter(problem_)
+      pol_ = dp.PartiallySerializableDesignerPolicy(problem_, sup_, f, seed=seed_)
+      st_ = benchmark_state.BenchmarkState(experimenter=exp, algorithm=benchmark_state.PolicySuggester(policy=pol_, local_supporter=sup_))
+      for c in steps_:
+        benchmark_runner.BenchmarkRunner(
+            benchmark_subroutines=[benchmark_runner.GenerateSuggestions(c), benchmark_runner.EvaluateActiveTrials()], num_repeats=1).run(st_)
+        noise()
+      return [{'id': t.id, 'params': {k: v.value for k, v in t.parameters.items()}} for t in sup_.GetTrials()]
+    if getattr(perturb, 'current', 1) >= 2:
+      study(seed + 17, [2, 3])          # another study from the same experimenter first
+    out = [study(seed, steps)]
   else:
     raise ValueError(mode)
   return out
